@@ -475,6 +475,33 @@ def step (w : World) (line : String) : World × String :=
         | .error _ => (w, "rej"))
       | none => (w, "err no-object"))
     | _, _ => (w, "err args"))
+  | "rnew" => ({ w with reps := w.reps.filter (·.1 != h) ++ [(h, MatRep.Rep.empty)] }, "ok -")
+  | "radd" => (match w.reps.find? (·.1 == h), parseName (a 2), parseNames (a 3) with
+    | some r, some id, some fs =>
+      (match r.2.addSimplex fs id with
+      | .ok r' => ({ w with reps := w.reps.map (fun x => if x.1 == h then (h, r') else x) }, "ok " ++ pName id)
+      | .error _ => (w, "rej"))
+    | _, _, _ => (w, "err args"))
+  | "rrel" => (match w.reps.find? (·.1 == h), parseName (a 2), parseName (a 3) with
+    | some r, some x, some q =>
+      (match r.2.relabelSimplex x q with
+      | .ok r' => ({ w with reps := w.reps.map (fun y => if y.1 == h then (h, r') else y) }, "ok -")
+      | .error _ => (w, "rej"))
+    | _, _, _ => (w, "err args"))
+  | "rdel" => (match w.reps.find? (·.1 == h), parseName (a 2) with
+    | some r, some x =>
+      if r.2.contains x then ({ w with reps := w.reps.map (fun y => if y.1 == h then (h, r.2.forceDeleteSimplex x) else y) }, "ok -")
+      else (w, "rej")
+    | _, _ => (w, "err args"))
+  | "robs" => (match w.reps.find? (·.1 == h) with
+    | some r =>
+      let top := (r.2.maxOrder + 1).toNat
+      let idx := (List.range top).map (fun k => pNames (r.2.simplicesOfOrder k))
+      let bops := (List.range (top + 1)).map (fun k => s!"{k}:{pMat (r.2.boundaryOperator k)}")
+      let bases := (List.range top).map (fun k => s!"{k}:{pMat (r.2.bs k)}")
+      let per := r.2.simplices.map (fun x => s!"{pName x}:{pNameSet (r.2.faces x)}:{pNameSet (r.2.cofaces x)}:{pNameSet (r.2.basisOf x)}:{(r.2.orderOf? x).getD 0}:{(r.2.indexOf? x).getD 0}")
+      (w, s!"ok max={r.2.maxOrder} I={pList idx} B={pList bops} S={pList bases} Q=[{String.intercalate ";" per}]")
+    | none => (w, "err no-rep"))
   | "q" => (w, withObj w h (fun o => query w o (t.drop 2)))
   | "obs" => (w, withObj w h (fun o => "ok " ++ obsC w o))
   | "alias" => (w, "ok " ++ aliasLine w)
